@@ -130,7 +130,7 @@ class C02(Prop):
                 ops = ["file ext=dat hex=" + hx(data)]
                 for s_ in range(rng.choice([1, 2])):
                     abc = rng.choice(["text", "amino" if natural == "uniprot" else "dna"])
-                    ops.append("open fmt=%s abc=%s B=%d" % (rng.choice([natural, natural, "unknown"]), abc, rng.choice(S.BSIZES)))
+                    ops.append("open fmt=%s abc=%s B=%d" % (rng.choice([natural, natural, "unknown"]), abc, S.pick_B(rng, data)))
                     call = rng.choice(["read", "readinfo", "mixed", "readwin", "readblock"])
                     k = len(meta["recs"]) + 1
                     if call == "readwin":
@@ -174,9 +174,7 @@ class C02(Prop):
             for s in range(rng.choice([1, 2, 3])):
                 fmt = natural if rng.random() < 0.55 else rng.choice(FORMATS)
                 abc = rng.choice(ABCS)
-                B = rng.choice(S.BSIZES + [4096, 4096, rng.randrange(1, 30)])
-                if len(data) > 5000 and B < 7:
-                    B = rng.choice([7, 64, 4096])
+                B = S.pick_B(rng, data, small_ok=len(data) <= 5000) if rng.random() < 0.8 else 4096
                 ops.append("open fmt=%s abc=%s B=%d" % (fmt, abc, B))
                 if abc == "text" and rng.random() < 0.3:
                     ops.append("guessabc")      # esl_sqfile_GuessAlphabet: records the stream while reading a window, then rewinds onto the recording
